@@ -1,4 +1,6 @@
 import JsonVerif.Lemmas.SerdeJson
+import JsonVerif.Lemmas.SerdeJsonBack
+import JsonVerif.Lemmas.SerdeJsonNum
 /-!
 # C18 — Conversion to and from serde_json::Value round-trips without loss or panic
 
@@ -10,23 +12,46 @@ and number spelling (same integer or same double). Neither direction panics on a
 namespace JsonVerif.C18
 open JsonVerif
 
-/-- Hypothesis on the two opaque number conversions (tested on every run over all three
-    serde_json number representations): converting a serde_json number to its text and back gives
-    the same number. After the `fix:` commit the way back is `u64`/`i64` parse or the correctly
-    rounded `str::parse::<f64>`, so this is the round-trip property of shortest float printing. -/
-def NumRoundTrip {SNum : Type} (disp : SNum → List Char) (conv : List Char → Option SNum) : Prop :=
-  ∀ n, conv (disp n) = some n
+/-- Hypothesis on the two number conversions, for the numbers satisfying the representation
+    invariant `P`: converting a serde_json number to its text and back gives the same number. -/
+def NumRoundTrip {SNum : Type} (P : SNum → Prop) (disp : SNum → List Char) (conv : List Char → Option SNum) : Prop :=
+  ∀ n, P n → conv (disp n) = some n
 
 /-- **serde_json → json-syntax → serde_json is the identity**, for every serde_json value
-    (objects are BTreeMaps: keys strictly ascending in any strict order `lt`), given the number
-    hypothesis. Entry order, strings, structure are reproduced exactly. -/
+    (objects are BTreeMaps: keys strictly ascending in any strict order `lt`; numbers in `P`),
+    given the number hypothesis. Entry order, strings, structure are reproduced exactly. Generic
+    in the number type; instantiated below. -/
 theorem C18_from_into {SNum : Type} (lt : List Char → List Char → Bool) (disp : SNum → List Char)
-    (conv : List Char → Option SNum)
+    (conv : List Char → Option SNum) (P : SNum → Prop)
     (hirr : ∀ a, lt a a = false) (hasym : ∀ a b, lt a b = true → lt b a = false)
     (htr : ∀ a b c, lt a b = true → lt b c = true → lt a c = true)
-    (hnum : NumRoundTrip disp conv) (x : SJ SNum) (hx : SJ.WF lt x) :
+    (hnum : NumRoundTrip P disp conv) (x : SJ SNum) (hx : SJ.WF lt P x) :
     intoSj lt conv (fromSj disp x) = x :=
-  into_from lt disp conv hirr hasym htr hnum x hx
+  into_from lt disp conv hirr hasym htr P hnum x hx
+
+/-- **The same with the number dispatch of the code** (`sjConv`: `as_u64`, then `as_i64`, then the
+    float leg `ftbl`; `SjNum` = `PosInt | NegInt | Float`; keys ordered as `String`s): the identity
+    on every serde_json value whose integers are in range and whose floats print to a text that is
+    not an integer literal and that the float leg sends to itself — the only hypothesis left, and
+    one about serde_json and std alone (a double is printed with `.` or an exponent; parsing what
+    was printed gives the double back), checked on every run over random doubles. -/
+theorem C18_from_into_code (ftbl : List Char → Option (List Char)) (x : SJ SjNum)
+    (hx : SJ.WF strLt (SjNum.WF ftbl) x) :
+    intoSj strLt (sjConv ftbl) (fromSj SjNum.disp x) = x := sj_from_into ftbl x hx
+
+/-- **Integers are exact, with no hypothesis at all**: every `u64` and every negative `i64` is
+    printed and converted back to itself whatever the float leg does (u64::MAX, i64::MIN included:
+    `as_u64` is tried first, a negative text is no `u64`, `From<i64>` keeps the sign). -/
+theorem C18_integers_exact (ftbl : List Char → Option (List Char)) :
+    (∀ n : Nat, n < 2 ^ 64 → sjConv ftbl (SjNum.disp (.pos n)) = some (.pos n)) ∧
+    (∀ i : Int, -(2 ^ 63 : Int) ≤ i → i < 0 → sjConv ftbl (SjNum.disp (.neg i)) = some (.neg i)) :=
+  ⟨fun n h => sjConv_disp ftbl (.pos n) h, fun i h1 h2 => sjConv_disp ftbl (.neg i) ⟨h1, h2⟩⟩
+
+/-- What the `into` direction produces is always a serde_json number in its representation
+    invariant (so the value that comes back from a there-and-back trip is a fixed point of it). -/
+theorem C18_conv_in_invariant (ftbl : List Char → Option (List Char))
+    (hf : ∀ t r, ftbl t = some r → SjNum.WF ftbl (.float r)) (n : List Char) (m : SjNum)
+    (h : sjConv ftbl n = some m) : SjNum.WF ftbl m := sjConv_wf ftbl hf n m h
 
 /-- **No panic in the `into` direction** (after the `fix:`): the conversion is a total function —
     a number without serde_json counterpart becomes null instead of unwinding. In the model this
@@ -41,16 +66,48 @@ theorem C18_into_total {SNum : Type} (lt : List Char → List Char → Bool) (co
 def C18_from_no_panic_full {SNum : Type} (disp : SNum → List Char) (numberOk : List Char → Bool) : Prop :=
   ∀ n, numberOk (disp n) = true
 
-/-- json-syntax → serde_json → json-syntax: full statement (equal up to entry order and number
-    spelling on the stated domain); not yet proved, tested. -/
-def C18_into_from_full {SNum : Type} (lt : List Char → List Char → Bool) (disp : SNum → List Char)
-    (conv : List Char → Option SNum) (domain : JValue → Prop) (equiv : JValue → JValue → Prop) : Prop :=
-  ∀ v, domain v → equiv (fromSj disp (intoSj lt conv v)) v
+/-- **json-syntax → serde_json → json-syntax**: for every value whose objects have no duplicate
+    keys (at any depth), the value that comes back is equal, up to the order of entries at every
+    level (`PermEq`, the relation of C15), to the original with each number replaced by the text
+    of the serde_json number it was converted to (`numImg`; `null` exactly when the number has no
+    serde_json counterpart, i.e. lies outside the property's domain). Structure, strings, keys,
+    booleans and nulls are reproduced; no entry is lost or duplicated. No assumption on the key
+    order of the map or on the number conversions is needed. -/
+theorem C18_into_from {SNum : Type} (lt : List Char → List Char → Bool) (disp : SNum → List Char)
+    (conv : List Char → Option SNum) (v : JValue) (h : DistinctKeys v) :
+    PermEq (substNum (numImg disp conv) v) (fromSj disp (intoSj lt conv v)) :=
+  back_permEq lt disp conv v h
+
+/-- … and the respelled number is **the same integer or the same double**: under the number
+    hypothesis the text that comes back converts to the very serde_json number (`u64`, `i64` or
+    finite `f64`) the original text converted to. -/
+theorem C18_number_same {SNum : Type} (disp : SNum → List Char) (conv : List Char → Option SNum)
+    (P : SNum → Prop) (hnum : NumRoundTrip P disp conv) (n : List Char) (m : SNum) (h : conv n = some m)
+    (hm : P m) : numImg disp conv n = .number (disp m) ∧ conv (disp m) = conv n := by
+  simp [numImg, h, hnum m hm]
+
+/-- A second trip changes nothing more: what came back goes there and back to itself up to entry
+    order again (its numbers are already in serde_json's spelling). -/
+theorem C18_number_stable {SNum : Type} (disp : SNum → List Char) (conv : List Char → Option SNum)
+    (P : SNum → Prop) (hnum : NumRoundTrip P disp conv) (m : SNum) (hm : P m) :
+    numImg disp conv (disp m) = .number (disp m) := by
+  simp [numImg, hnum m hm]
 
 /-! Non-vacuity: an instance of the hypotheses (numbers = Nat rendered in decimal, keys ordered by
     length then …) is not needed for the theorem's content; a concrete well-formed value: -/
-example : SJ.WF (fun a b => decide (a.length < b.length))
+example : SJ.WF (fun a b => decide (a.length < b.length)) (fun _ => True)
     (.object [(['a'], .array [.null, .number (1 : Nat)]), (['b', 'b'], .object [])] : SJ Nat) := by
   simp [SJ.WF, SJ.WFM, SJ.WFL]
+example : SJ.WF strLt (SjNum.WF (fun _ => none))
+    (.object [(['a'], .array [.number (.pos 18446744073709551615), .number (.neg (-9223372036854775808))]),
+              (['a', 'b'], .object [])] : SJ SjNum) := by
+  simp only [SJ.WF, SJ.WFM, SJ.WFL, SjNum.WF, List.map_cons, List.map_nil, List.Pairwise.nil,
+    and_true, true_and]
+  refine ⟨⟨by decide, by decide, by decide⟩, ?_⟩
+  simp only [List.pairwise_cons, List.mem_cons, List.mem_nil_iff, or_false, forall_eq,
+    List.Pairwise.nil, and_true, false_imp_iff, implies_true]
+  decide +kernel
+example : DistinctKeys (.object [(['b'], .array [.number ['1'], .object []]), (['a'], .object [(['b'], .null)])]) := by
+  simp [DistinctKeys, DistinctKeysM, DistinctKeysL]
 
 end JsonVerif.C18
